@@ -226,8 +226,9 @@ def final_check(state, out):
             if L < (f_hi - gap) - 1e-6 * (f_unif + 1.0):
                 return out.fail('%s_start_below_feasible_optimum' % mode, '%s start with %s: loss %r is below the certified minimum %r over tables supported on the structurally possible cells (a different optimum than a cold start reaches)' % (mode, op['solver'], L, f_hi - gap))
             denom = f_unif - f_hi
-            if denom <= 1e-3 * f_unif or denom <= 1e-12:
-                e = 0.0 if L - f_hi <= 1e-6 * (f_unif + 1e-12) + 1e-12 else (L - f_hi) / max(denom, 1e-300)
+            floor = inf.loss_floor(meas, tot)
+            if denom <= 1e-3 * f_unif or denom <= 1e3 * floor:
+                e = 0.0 if L - f_hi <= 1e-6 * f_unif + 1e3 * floor else (L - f_hi) / max(denom, 1e-300)
             else:
                 e = (L - f_hi) / denom
             excess.append(e)
